@@ -82,6 +82,10 @@ func (mv *MessageView) SnapshotRequest(req *http.Request) error {
 	if req.Method == "CONNECT" && req.URL.Path == "" {
 		// CONNECT carries the authority-form: host:port, not //host:port.
 		target = req.URL.Host
+	} else if req.URL.Path == "*" {
+		// The asterisk-form (OPTIONS *) has no URL: inside the proxy the URL
+		// carries scheme and host and would print as http://host/*.
+		target = "*"
 	}
 	fmt.Fprintf(buf, "%s %s HTTP/%d.%d\r\n", req.Method,
 		target, req.ProtoMajor, req.ProtoMinor)
